@@ -61,7 +61,12 @@ static inline bool periph_same(const abs_periph *a, const abs_periph *b)
 
 HARNESS(h_slicing)
 {
-    NONDET(RegisterState, st0); CBMC_ONLY(st0.rep = st0.rep ? 1 : 0;) ASSUME(wf_regs(&st0)); verif_outcome = 0;
+    /* registers the instruction stream (nops, idle self-branches, interrupt entry) reads are symbolic; the others are zero in both machines */
+    RegisterState st0; memset(&st0, 0, sizeof st0); verif_outcome = 0;
+    NONDET(u32, s_pc); NONDET(u16, s_sp); NONDET(u16, s_ie); NONDET(u16, s_imv); NONDET(u16, s_ipv); NONDET(u16, s_cpc); NONDET_ARR(u16, s_im, 3); NONDET_ARR(u16, s_ip, 3); NONDET_ARR(u16, s_ic, 3);
+    st0.pc = s_pc; st0.sp = s_sp; st0.ie = s_ie & 1; st0.imv = s_imv & 1; st0.ipv = s_ipv & 1; st0.cpc = s_cpc & 1;
+    for (int i = 0; i < 3; i++) { st0.im.e[i] = s_im[i] & 1; st0.ip.e[i] = s_ip[i] & 1; st0.ic.e[i] = s_ic[i] & 1; }
+    ASSUME(wf_regs(&st0));
     ABSMEM_SETUP();
     for (int i = 0; i < AM_PCELLS; i++) ASSUME(am_pval[i] == 0 || am_pval[i] == BRR_SELF);          /* program: nops and idle self-branches */
     ASSUME(st0.pc + C06_N + 8 < 0x40000 && st0.prpage == 0 && !st0.rep && !st0.lp);                 /* straight-line code; loops are C09 */
